@@ -223,6 +223,111 @@ def r6_overrides_recurse(rep, facts):
     rep.check(R, 'count', n >= 5, f'{n} overridden hooks evaluated', f'only {n} overridden visitor hooks found in the workspace')
 
 
+def r8_walk_model(rep, facts):
+    R = rep.rule('C20/R8', 'the default walkers reach every node of a model document exactly once and in document order: visit_document / visit_document_mut evaluated with a recording '
+                 'visitor on a document holding scalars of every kind, an array, an inline table, a dotted-key table, a [table], an array of tables with two elements and a placeholder — '
+                 'every node is handed to the hook of its own kind once, the placeholder to none', floor=2)
+    from .den import Evaluator, Unanalysable, EvalPanic, VecObj
+    from .places import PlaceInterp, MapObj, deref, plain
+    I, V = 'toml_edit::item::Item::', 'toml_edit::value::Value::'
+    NONE_ = ('ctor', 'core::option::Option::None')
+    dec = lambda: ('struct', 'toml_edit::repr::Decor', {'prefix': NONE_, 'suffix': NONE_})
+    key = lambda n: ('struct', 'toml_edit::key::Key', {'key': n, 'repr': NONE_, 'leaf_decor': dec(), 'dotted_decor': dec()})
+    fmt = lambda tag: ('struct', 'toml_edit::repr::Formatted', {'value': ('elem', tag), 'repr': NONE_, 'decor': dec(), 'node': tag})
+    scal = lambda kind, tag: ('ctor', V + kind, (fmt(tag),))
+
+    def table(tag, pairs, dotted=False):
+        return ('struct', 'toml_edit::table::Table', {'items': MapObj([(key(k), x) for k, x in pairs]), 'decor': dec(), 'implicit': False, 'dotted': dotted, 'doc_position': NONE_, 'span': NONE_, 'node': tag})
+
+    def inline(tag, pairs):
+        return ('struct', 'toml_edit::inline_table::InlineTable', {'items': MapObj([(key(k), ('ctor', I + 'Value', (x,))) for k, x in pairs]), 'decor': dec(), 'implicit': False, 'dotted': False,
+                                                                     'preamble': ('opaque',), 'span': NONE_, 'node': tag})
+
+    def array(tag, vals):
+        return ('struct', 'toml_edit::array::Array', {'values': VecObj([('ctor', I + 'Value', (x,)) for x in vals]), 'trailing': ('opaque',), 'trailing_comma': False, 'decor': dec(), 'span': NONE_, 'node': tag})
+    val = lambda x: ('ctor', I + 'Value', (x,))
+
+    def document():
+        root = table('root', [
+            ('s', val(scal('String', 's'))), ('i', val(scal('Integer', 'i'))), ('f', val(scal('Float', 'f'))), ('b', val(scal('Boolean', 'b'))), ('d', val(scal('Datetime', 'd'))),
+            ('ghost', ('ctor', I + 'None')),
+            ('arr', val(('ctor', V + 'Array', (array('arr', [scal('Integer', 'arr.0'), ('ctor', V + 'InlineTable', (inline('arr.1', [('x', scal('Integer', 'arr.1.x'))]),))]),)))),
+            ('it', val(('ctor', V + 'InlineTable', (inline('it', [('y', scal('String', 'it.y'))]),)))),
+            ('dot', ('ctor', I + 'Table', (table('dot', [('z', val(scal('Integer', 'dot.z')))], dotted=True),))),
+            ('t', ('ctor', I + 'Table', (table('t', [('u', val(scal('Boolean', 't.u'))), ('sub', ('ctor', I + 'Table', (table('t.sub', []),)))]),))),
+            ('aot', ('ctor', I + 'ArrayOfTables', (('struct', 'toml_edit::array_of_tables::ArrayOfTables', {'values': VecObj([('ctor', I + 'Table', (table('aot.0', [('k', val(scal('Integer', 'aot.0.k')))]),)),
+                                                                                                                               ('ctor', I + 'Table', (table('aot.1', []),))]), 'span': NONE_, 'node': 'aot'}),))),
+        ])
+        return ('struct', 'toml_edit::document::DocumentMut', {'root': ('ctor', I + 'Table', (root,)), 'trailing': ('opaque',)})
+    want = {'visit_table': ['root', 't', 't.sub', 'aot.0', 'aot.1', 'dot'], 'visit_inline_table': ['arr.1', 'it'], 'visit_array': ['arr'], 'visit_array_of_tables': ['aot'],
+            'visit_string': ['s', 'it.y'], 'visit_integer': ['i', 'arr.0', 'arr.1.x', 'dot.z', 'aot.0.k'], 'visit_float': ['f'], 'visit_boolean': ['b', 't.u'], 'visit_datetime': ['d']}
+
+    class Walk(PlaceInterp):
+        MAX_DEPTH = 80
+
+        def __init__(self, ev, module, suffix):
+            super().__init__(ev)
+            self.module, self.suffix, self.seen = module, suffix, []
+
+        def node_tag(self, v):
+            v = deref(v)
+            while isinstance(v, tuple) and len(v) == 3 and v[0] == 'ctor' and v[2]:
+                v = deref(v[2][0])
+            return v[2].get('node') if isinstance(v, tuple) and len(v) == 3 and v[0] == 'struct' and isinstance(v[2], dict) else None
+
+        def _mcall(self, e, env):
+            name = e.get('name') or ''
+            if name.startswith('visit_'):
+                recv = deref(self.val(e['recv'], env))
+                if recv == ('walker',):
+                    args = [self.val(a, env) for a in e.get('args', [])]
+                    base = name[:-len(self.suffix)] if self.suffix and name.endswith(self.suffix) else name
+                    self.seen.append((base, self.node_tag(args[-1])))
+                    d = f'toml_edit::{self.module}::{name}'
+                    if not self.ev.facts.has_body(d):
+                        raise Unanalysable(f'default walker `{d}` not found')
+                    return self.apply_fn(self.ev.facts.body(d), [recv] + args)
+            if self._workspace_method(e) is None and name in ('iter', 'iter_mut', 'is_empty', 'len'):
+                # a call through `dyn TableLike`: the impl of the node's own type
+                recv = self.val(e['recv'], env)
+                t = self.type_of(recv)
+                for imp in self.ev.facts.impls:
+                    if (imp.get('trait') or '').endswith('TableLike') and (imp.get('self_ty') or '').split('<')[0] == t:
+                        for it_ in imp['items']:
+                            if it_['name'] == name and self.ev.facts.has_body(it_['def']):
+                                return self.apply_fn(self.ev.facts.body(it_['def']), [recv] + [self.val(a, env) for a in e.get('args', [])])
+            return super()._mcall(e, env)
+    for module, suffix, entry in (('visit', '', 'visit_document'), ('visit_mut', '_mut', 'visit_document_mut')):
+        d = f'toml_edit::{module}::{entry}'
+        if not facts.has_body(d):
+            rep.incomplete(R, module, f'`{d}` not found')
+            continue
+        b = facts.body(d)
+        w = Walk(Evaluator(facts), module, suffix)
+        try:
+            w.apply_fn(b, [('walker',), document()])
+        except EvalPanic as ex:
+            rep.bad(R, module, f'walking the model document with `{entry}` panics: {ex}', facts.loc(b))
+            continue
+        except (Unanalysable, TypeError, KeyError, IndexError, AttributeError) as ex:
+            rep.incomplete(R, module, f'cannot evaluate `{entry}` on the model document: {type(ex).__name__}: {ex}', facts.loc(b))
+            continue
+        got = {}
+        for hook, tag in w.seen:
+            if hook in want:
+                got.setdefault(hook, []).append(tag)
+        diffs = [f'{hook}: visited {got.get(hook, [])}, the document holds {nodes}' for hook, nodes in want.items() if sorted(map(str, got.get(hook, []))) != sorted(nodes)]
+        n_entries = 16          # key/value entries of the model document (placeholder excluded)
+        for hook in ('visit_item', 'visit_table_like_kv'):
+            k = sum(1 for h, _ in w.seen if h == hook)
+            if k != n_entries:
+                diffs.append(f'{hook}: called {k} times, the document has {n_entries} key/value entries')
+        order_ok = [t for h, t in w.seen if h in ('visit_string', 'visit_integer', 'visit_float', 'visit_boolean', 'visit_datetime')] == ['s', 'i', 'f', 'b', 'd', 'arr.0', 'arr.1.x', 'it.y', 'dot.z', 't.u', 'aot.0.k']
+        rep.check(R, module, not diffs and order_ok, f'{len(w.seen)} hook calls, every node once, scalars in document order',
+                  f'the default walk of `{entry}` over the model document: ' + ('; '.join(diffs[:3]) if diffs else 'the scalars are not reached in document order') +
+                  ' — a node is skipped, visited twice, or handed to the hook of another kind', facts.loc(b))
+
+
 def rules(rep, facts):
     if 'toml_edit' not in facts.crates:
         return
@@ -236,6 +341,7 @@ def rules(rep, facts):
     r2_placeholders(rep, facts, rid='C20/R5', rid3='C20/R5b')
     from .rules_c16 import r2c_iteration_tables
     r2c_iteration_tables(rep, facts, rid='C20/R5c')
+    r8_walk_model(rep, facts)
     feats = set(facts.crates.get('toml_edit', {}).get('features', []))
     if 'serde' in feats:
         r6_overrides_recurse(rep, facts)
